@@ -41,6 +41,22 @@ build_extract() {
   fi
 }
 
+build_specdriver() {
+  # optional second program: the extracted specification checkers (needs coq/Spec/C16.vo)
+  mkdir -p "$BUILD/extracted_spec"
+  cd "$BUILD/extracted_spec"
+  if [ -f "$VERIF/coq/Spec/C16.vo" ]; then
+    if [ ! -x "$BUILD/driver_spec" ] || [ "$VERIF/coq/Spec/C16.vo" -nt "$BUILD/driver_spec" ] \
+       || [ "$VERIF/driver/main.ml" -nt "$BUILD/driver_spec" ]; then
+      ( timeout 600 coqc -Q "$VERIF/coq" Slinky "$VERIF/coq/Extract/ExtractSpec.v" > "$BUILD/logs/extract_spec.log" 2>&1 \
+        && rm -f "$VERIF/coq/Extract/"*.vo "$VERIF/coq/Extract/"*.glob "$VERIF/coq/Extract/".*.aux \
+        && sed -e 's/^open Model$/open Specmodel/' -e 's/^(\*SPEC$//' -e 's/^SPEC\*)$//' "$VERIF/driver/main.ml" > main_spec.ml && \
+        ocamlfind ocamlopt -w -a -o "$BUILD/driver_spec" specmodel.mli specmodel.ml main_spec.ml >> "$BUILD/logs/extract_spec.log" 2>&1 ) \
+        || { echo "spec driver build failed (see build/logs/extract_spec.log)"; rm -f "$BUILD/driver_spec"; }
+    fi
+  fi
+}
+
 build_harness() {
   cd "$VERIF/harness"
   cp /repo/Cargo.lock Cargo.lock 2>/dev/null || true
@@ -59,5 +75,5 @@ case "$what" in
   extract) build_coq; build_extract ;;
   harness) build_harness ;;
   cli) build_cli ;;
-  all) build_coq; build_extract; build_harness; build_cli ;;
+  all) build_coq; build_extract; build_specdriver; build_harness; build_cli ;;
 esac
